@@ -9,7 +9,7 @@
    itself (there is no proof that rebuild reaches a congruence-closed state); nothing is concluded
    from pairs the bounded closure does not derive. *)
 From SE Require Import Sem.Closure Sem.ClosureFacts Sem.EgMachine.
-From SE Require Import EGraph.Model EGraph.ModelMachine EGraph.PendingFacts.
+From SE Require Import EGraph.Model EGraph.ModelMachine EGraph.PendingFacts EGraph.UnionFindFacts EGraph.AddCoversFacts EGraph.MonotoneFacts.
 
 Theorem C02_closure_sound : forall pool maxd fuel E terms a b,
   same_cls (gcc_part pool maxd fuel E terms) a b = true ->
@@ -33,6 +33,13 @@ Theorem C02_no_deferred_work_reachable : forall terms ops hs s,
   run_ops terms ops [] empty_egraph = Ok (hs, s) -> pending s = [].
 Proof. exact reachable_no_pending_empty. Qed.
 Print Assumptions C02_no_deferred_work_reachable.
+
+(* the asserted pair itself: when eg_union l r returns, l and r compare equal (every reachable state satisfies inv3,
+   every handle is covered: AddCoversFacts.reachable_inv3); EGraph/MonotoneFacts.v *)
+Theorem C02_union_establishes_the_asserted_equality : forall l r s x s',
+  inv3 s -> covers s l -> covers s r -> eg_union l r s = Ok (x, s') -> eg_eq s' l r = Ok true.
+Proof. exact eg_union_establishes. Qed.
+Print Assumptions C02_union_establishes_the_asserted_equality.
 
 (* the statement that is NOT proved: the model-level completeness of the e-graph *)
 Definition C02_full : Prop :=
